@@ -1,6 +1,8 @@
 package world
 
 import (
+	"encoding/hex"
+	"github.com/attestantio/dirk/services/checker"
 	"crypto/sha256"
 	badger "github.com/dgraph-io/badger/v2"
 	"bytes"
@@ -55,6 +57,7 @@ type Op struct {
 	Gate   bool    `json:"gate,omitempty"`
 	Lane   int     `json:"lane,omitempty"` // inside a free-running "par": ops with the same lane > 0 run one after the other in one goroutine (a sequential client)
 	KillAfterUs int `json:"kill_after_us,omitempty"` // remote mode: SIGKILL the binary this many microseconds after the request was sent
+	Arrivals bool  `json:"arrivals,omitempty"` // free-running "par": while the requests run, new accounts keep being created through the process service
 	Fork   int     `json:"fork,omitempty"` // which of several "forks" the request's domain belongs to (the bytes after the domain type)
 	N      int     `json:"n,omitempty"` // for Kind "scatter": batch size
 	P      int     `json:"p,omitempty"` // for Kind "scatter": GOMAXPROCS
@@ -797,6 +800,12 @@ func (r *Runner) Run(ctx context.Context, sc *Scenario) error {
 				return fmt.Errorf("restart: %w", err)
 			}
 			r.Log.Emit(Ev{"ev": "Restart"})
+		case "create":
+			// op.N accounts created at RUN TIME through the process service (they live in the fetcher's run-time tables, not in the
+			// tables filled at start-up); registered as keys k<n>, k<n+1>, ... after the world's own
+			if err := r.createAccounts(ctx, b, op.N, sc.ID+"-"+op.ID); err != nil {
+				return fmt.Errorf("create: %w", err)
+			}
 		case "sleep":
 			time.Sleep(time.Duration(op.N) * time.Millisecond)
 		case "close":
@@ -885,6 +894,36 @@ func (r *Runner) runPar(ctx context.Context, st *Stack, b *Base, op Op) {
 		}
 		go run(o)
 	}
+	stopArrivals := make(chan struct{})
+	arrivalsDone := make(chan struct{})
+	if op.Arrivals && !op.Gate {
+		go func() {
+			defer close(arrivalsDone)
+			n := 0
+			for {
+				select {
+				case <-stopArrivals:
+					r.Log.Emit(Ev{"ev": "Arrivals", "n": n})
+					return
+				default:
+				}
+				if err := r.createAccounts(ctx, b, 1, fmt.Sprintf("arr-%s-%d-%d", op.ID, time.Now().UnixNano()%1000000, n), false); err != nil {
+					r.Log.Emit(Ev{"ev": "Arrivals", "n": n, "err": err.Error()})
+					return
+				}
+				n++
+			}
+		}()
+	} else {
+		close(arrivalsDone)
+	}
+	defer func() {
+		close(stopArrivals)
+		select {
+		case <-arrivalsDone:
+		case <-time.After(30 * time.Second):
+		}
+	}()
 	for _, seq := range lanes {
 		wg.Add(1)
 		go func(seq []Op) {
@@ -931,7 +970,7 @@ func (r *Runner) runPar(ctx context.Context, st *Stack, b *Base, op Op) {
 	case <-time.After(30 * time.Second):
 		buf := make([]byte, 1<<22)
 		n := runtime.Stack(buf, true)
-		inLock := strings.Count(string(buf[:n]), "sync.(*Mutex).Lock")
+		inLock := strings.Count(string(buf[:n]), "sync.(*Mutex).Lock") + strings.Count(string(buf[:n]), "sync.(*RWMutex).Lock") + strings.Count(string(buf[:n]), "sync.(*RWMutex).RLock")
 		r.Log.Emit(Ev{"ev": "Watchdog", "r": op.ID, "goroutines_in_mutex_lock": inLock})
 		os.Exit(3)
 	}
@@ -955,4 +994,33 @@ func (r *Runner) runScatter(op Op) {
 		ev["err"] = err.Error()
 	}
 	r.Log.Emit(ev)
+}
+
+// createAccounts creates n single-key accounts in wallet W1 through the real process service (which stores them and registers them
+// with the fetcher, as a key generation does) and registers them as the next key names.
+func (r *Runner) createAccounts(ctx context.Context, b *Base, n int, tag string, register ...bool) error {
+	b.createMu.Lock()
+	defer b.createMu.Unlock()
+	if b.solo == nil {
+		p, err := NewSoloProcess(ctx, b)
+		if err != nil {
+			return err
+		}
+		b.solo = p
+	}
+	for i := 0; i < n; i++ {
+		name := fmt.Sprintf("W1/rt-%s-%d", tag, i)
+		pub, _, err := b.solo.OnGenerate(ctx, &checker.Credentials{Client: "c1"}, name, []byte(b.Spec.Passphrase), 1, 1)
+		if err != nil {
+			return err
+		}
+		if len(register) > 0 && !register[0] {
+			continue // (accounts that arrive while requests run are addressed by nobody: the maps are left alone, no lock needed)
+		}
+		kn := fmt.Sprintf("k%d", len(b.PubKeys))
+		b.PubKeys[kn] = pub
+		b.Paths[kn] = name
+		b.Names.KeyName[hex.EncodeToString(pub)] = kn
+	}
+	return nil
 }
